@@ -361,8 +361,20 @@ pub fn run(mut cx: Ctx) -> ! {
             (st, out, format!("P={} bind={} conns={:?}", scn.p, scn.bind, scn.conns), *bound)
         })
         .collect();
+    // the explored traffic states, free-running on real threads and real loopback sockets (several Apps alive in the
+    // process at the same time, each with its own shutdown receiver). They run before the explorer's results are
+    // looked at: state of the subject that outlives an execution (a process-wide static, say) makes the explorer's
+    // replays diverge, which is a machinery exit without a verdict, while the free-running replays still decide.
+    let mut real = Stats::default();
+    crate::props::c20_real::run_replays(&mut real, cx.quick());
+    let real_violations = !real.violations.is_empty();
+    cx.stats.merge(real);
     let mut per = vec![];
     for (st, out, name, bound) in results {
+        if real_violations && !out.machinery_errors.is_empty() {
+            cx.cap(format!("{}: the explorer's executions were not reproducible ({}); only the free-running replays are reported", name, out.machinery_errors[0]));
+            cx.finish();
+        }
         sched::die_on_machinery(&out, &name);
         if out.capped {
             cx.cap(format!("{}: capped, completed bound {:?} of {:?}", name, out.completed_bound, bound));
@@ -375,10 +387,6 @@ pub fn run(mut cx: Ctx) -> ! {
     }
     cx.extra.insert("per_scenario".into(), json!(per));
     cx.bound("scenarios", list.len());
-    // the explored traffic states, free-running on real threads and real loopback sockets
-    let mut st = Stats::default();
-    crate::props::c20_real::run_replays(&mut st, cx.quick());
-    cx.stats.merge(st);
     // and against the real tokio App::run (states replayed, schedules not enumerated)
     crate::tokio_twin::merge(&mut cx, "C20");
     cx.assume("tokio runtime: schedules are not enumerated (its scheduler and tokio::net are outside the controlled facade); each traffic state is replayed once against the real tokio App::run on loopback with a 5 s bound");
